@@ -167,7 +167,7 @@ var (
 )
 
 func init() {
-	limit := time.Duration(envIntCore("VERIF_HANG_SEC", 25)) * time.Second
+	limit := time.Duration(envIntCore("VERIF_HANG_SEC", 40)) * time.Second
 	go func() {
 		var ms runtime.MemStats
 		for {
@@ -188,24 +188,73 @@ func init() {
 			if reason == "" {
 				continue
 			}
+			// A genuine spin keeps one goroutine executing library code. Take two
+			// stack dumps five seconds apart: only a goroutine that is
+			// running/runnable inside tychoish/fun in BOTH counts as a hang; a run
+			// that is merely slow (overloaded machine) or stuck elsewhere is
+			// reported as a stall (inconclusive), never as a violation.
 			info := curInfo.Load()
-			buf := make([]byte, 1<<16)
-			n := runtime.Stack(buf, true)
-			stack := string(buf[:n])
-			if i := strings.Index(stack, "github.com/tychoish/fun"); i > 2000 {
-				stack = stack[i-2000:]
+			first := dumpStacks()
+			spin := spinning(first)
+			if !strings.Contains(reason, "allocated") {
+				time.Sleep(5 * time.Second)
+				if curStart.Load() != st {
+					fmt.Fprintf(os.Stderr, "SLOW-RUN %v took more than %v of real time\n", info, limit)
+					continue
+				}
+				second := spinning(dumpStacks())
+				for id := range spin {
+					if !second[id] {
+						delete(spin, id)
+					}
+				}
 			}
-			if len(stack) > 6000 {
-				stack = stack[:6000]
+			kind, code := "hang", 3
+			if len(spin) == 0 {
+				kind, code = "stall", 4
+				reason += "; no goroutine was executing tychoish/fun code (slow machine or harness stall)"
 			}
 			if out := os.Getenv("VERIF_OUT"); out != "" && info != nil {
-				b, _ := json.Marshal(map[string]any{"property": info[0], "workload": info[1], "seed": info[2], "reason": reason, "stacks": stack})
+				_ = os.WriteFile(out+".hang.stacks", []byte(first), 0o644)
+				short := first
+				if i := strings.Index(short, "github.com/tychoish/fun"); i > 2000 {
+					short = short[i-2000:]
+				}
+				if len(short) > 6000 {
+					short = short[:6000]
+				}
+				b, _ := json.Marshal(map[string]any{"property": info[0], "workload": info[1], "seed": info[2], "reason": reason, "kind": kind, "stacks": short})
 				_ = os.WriteFile(out+".hang", b, 0o644)
 			}
-			fmt.Fprintf(os.Stderr, "HANG %v: %s\n%s\n", info, reason, stack)
-			os.Exit(3)
+			fmt.Fprintf(os.Stderr, "%s %v: %s\n", strings.ToUpper(kind), info, reason)
+			os.Exit(code)
 		}
 	}()
+}
+
+func dumpStacks() string {
+	buf := make([]byte, 1<<22)
+	n := runtime.Stack(buf, true)
+	return string(buf[:n])
+}
+
+// spinning returns the ids of goroutines that are running or runnable with a
+// tychoish/fun frame on their stack.
+func spinning(dump string) map[string]bool {
+	out := map[string]bool{}
+	for _, g := range strings.Split(dump, "\n\n") {
+		head := strings.SplitN(g, "\n", 2)[0]
+		if !strings.HasPrefix(head, "goroutine ") {
+			continue
+		}
+		if !(strings.Contains(head, "[running") || strings.Contains(head, "[runnable")) {
+			continue
+		}
+		if strings.Contains(g, "github.com/tychoish/fun") {
+			out[strings.Fields(head)[1]] = true
+		}
+	}
+	return out
 }
 
 func envIntCore(name string, def int) int {
